@@ -53,3 +53,14 @@ Definition sym_tol (sname : string) (aq : option Q) (size : Z) : Q :=
     | None => base
     end
   else base.
+
+(* the constant of the overlap-add sum with m = size/hop overlapping copies (None: nothing is promised) *)
+Definition cola_const (sname : string) (m : Z) (aq : option Q) : option Q :=
+  if String.eqb sname "hann" then (if (m =? 2)%Z then Some 1%Q else if (m =? 4)%Z then Some 2%Q else None)
+  else if String.eqb sname "hamming" then
+    (if (m =? 2)%Z then Some (108 # 100)%Q else if (m =? 4)%Z then Some (216 # 100)%Q else None)
+  else if String.eqb sname "bartlett" then (if (m =? 2)%Z then Some 1%Q else None)
+  else if String.eqb sname "rect" then (if (1 <=? m)%Z then Some (inject_Z m) else None)
+  else if String.eqb sname "blackman" then
+    (if (m =? 4)%Z then match aq with Some a => Some (2 * (1 - a))%Q | None => None end else None)
+  else None.
